@@ -7,6 +7,7 @@ import (
 	"go/constant"
 	"go/token"
 	"go/types"
+	"os"
 	"strings"
 
 	"golang.org/x/tools/go/ssa"
@@ -288,6 +289,9 @@ func (in *Interp) callClosure(c *Closure, args []V) V {
 	return in.callFn(c.Fn, args, c.Env, false)
 }
 
+// traceUnsupported (GOSYM_TRACE=1): annotate "unsupported" path ends with the innermost call stack.
+var traceUnsupported = os.Getenv("GOSYM_TRACE") != ""
+
 func (in *Interp) call(fn *ssa.Function, args []V, initCtx bool) V {
 	return in.callFn(fn, args, nil, initCtx)
 }
@@ -319,6 +323,16 @@ func (in *Interp) callFn(fn *ssa.Function, args []V, env []V, initCtx bool) V {
 		panic(pathEnd{"unwind", "recursion depth in " + name})
 	}
 	defer func() { in.depth-- }()
+	if traceUnsupported {
+		defer func() {
+			if r := recover(); r != nil {
+				if u, ok := r.(unsupportedErr); ok && strings.Count(u.what, " <- ") < 6 {
+					panic(unsupportedErr{u.what + " <- " + name})
+				}
+				panic(r)
+			}
+		}()
+	}
 	fi := infoOf(fn)
 	fr := &frame{fn: fn, fi: fi, regs: make([]V, fi.n), loopCount: make([]int32, len(fn.Blocks)), deferOf: in.pendingDeferOf}
 	in.pendingDeferOf = nil
